@@ -254,6 +254,69 @@ func runC03(cfg *vh.Config) error {
 	}
 	res.Notes = append(res.Notes, fmt.Sprintf("fault documents the independent reader did not classify as must-reject (not judged): %d", disagree))
 
+	// ---- stream 3b: the input is ONE document: anything but white space after the top-level value is a
+	// fault (fixed corpus of tails x accepted documents), white space around the document is not
+	{
+		tails := []struct {
+			tail  string
+			class string
+		}{
+			{`{}`, "second document"}, {`{"sString":"lost"}`, "second document"}, {` {"sBool":true}`, "second document"},
+			{"\n{}", "second document"}, {` x`, "stray text"}, {`]`, "stray close"}, {`}`, "stray close"}, {`,`, "stray separator"},
+			{`:`, "stray separator"}, {`null`, "second value"}, {` 1`, "second value"}, {`"`, "unterminated string"},
+			{`"x"`, "second value"}, {` tru`, "incomplete literal"}, {`[]`, "second value"}, {"\x00", "stray text"},
+		}
+		pads := [][2]string{{"", " "}, {"", "\n"}, {" ", ""}, {"\t\r\n ", " \n\t\r"}, {"\n\n", "\n"}}
+		nTail := cfg.Scale(12, 120)
+		for i := 0; i < nTail && len(bases) > 0 && !tripped(); i++ {
+			b := bases[(i*7)%len(bases)]
+			canon := []byte(b.tree.Print(nil))
+			co, ran := dec(b.t, canon, "trailing")
+			if !ran || co.Kind != "ok" {
+				continue
+			}
+			want := co.term()
+			for _, tl := range tails {
+				doc := append(append([]byte{}, canon...), tl.tail...)
+				o, ran := dec(b.t, doc, "trailing")
+				if !ran {
+					continue
+				}
+				distinct.Add(b.t.Name + string(doc))
+				res.Count("trailing")
+				res.Count("trailing-outcome:" + o.Kind)
+				input := map[string]any{"target": b.t.Env.Root, "json": short(doc), "tail": tl.tail}
+				switch o.Kind {
+				case "ok":
+					res.Fail(vh.Failure{Case: em.caseNo, Stream: "trailing", Sig: "C03 data after the top-level value accepted: " + tl.class, Clause: "a document is rejected with an error rather than partially accepted", Input: input, Got: "decoded to " + short([]byte(o.term())), Want: "error"})
+				case "panic":
+					res.Fail(vh.Failure{Case: em.caseNo, Stream: "trailing", Sig: "C03 decoder panics in " + o.Site, Clause: "rejected with an error", Input: input, Got: o.Panic})
+				}
+				em.add(decCase(b.t, doc, o), "trailing", input, map[string]any{"kind": o.Kind, "err": o.Err})
+				em.caseNo++
+			}
+			for _, pd := range pads {
+				doc := append(append([]byte(pd[0]), canon...), pd[1]...)
+				o, ran := dec(b.t, doc, "padded")
+				if !ran {
+					continue
+				}
+				res.Count("padded")
+				input := map[string]any{"target": b.t.Env.Root, "json": short(doc)}
+				switch {
+				case o.Kind == "err":
+					res.Fail(vh.Failure{Case: em.caseNo, Stream: "padded", Sig: "C03 documented spelling rejected: white space around the document", Clause: "insignificant whitespace produces the same message as the canonical spelling", Input: input, Got: o.Err})
+				case o.Kind == "panic":
+					res.Fail(vh.Failure{Case: em.caseNo, Stream: "padded", Sig: "C03 decoder panics in " + o.Site, Clause: "decoding succeeds or is rejected with an error", Input: input, Got: o.Panic})
+				case o.term() != want:
+					res.Fail(vh.Failure{Case: em.caseNo, Stream: "padded", Sig: "C03 spelling variant decodes to a different message: white space around the document", Clause: "insignificant whitespace produces the same message as the canonical spelling", Input: input, Got: firstDiff(o.term(), want)})
+				}
+				em.add(decCase(b.t, doc, o), "padded", input, map[string]any{"kind": o.Kind, "err": o.Err})
+				em.caseNo++
+			}
+		}
+	}
+
 	// ---- stream 4: two members of one unexposed proto oneof (both non-null)
 	nSib := cfg.Scale(40, 600)
 	for i := 0; i < nSib; i++ {
@@ -376,6 +439,95 @@ func runC03(cfg *vh.Config) error {
 			em.add(queryCase(t, q, oq), "query", input, map[string]any{"kind": oq.Kind, "err": oq.Err})
 		}
 		em.caseNo++
+	}
+
+	// ---- stream 5b (pinned): query values with surrounding white space.  A scalar / enum parameter is the
+	// field's text verbatim: it decodes exactly like the same text written as a JSON string (strings and keys
+	// keep the white space; numbers, bools, dates, timestamps, enums ... are rejected); only container-valued
+	// parameters are trimmed.  Every root scalar kind, scalar arrays and nested a.b paths.
+	{
+		spaced := []func(string) string{
+			func(s string) string { return " " + s }, func(s string) string { return s + " " },
+			func(s string) string { return "\t" + s + "\n" }, func(string) string { return "   " },
+			func(s string) string { return "\u00a0" + s }, func(s string) string { return s + "\u2003" },
+			func(s string) string { return "\r\n" + s + " " },
+		}
+		k := 0
+		for _, t := range []*target{byName["env_full"], byName["env_wide"]} {
+			root := t.Env.Lookup(t.Env.Root)
+			if root == nil || root.Class != "object" {
+				continue
+			}
+			g := codecgen.NewGen(r, t.Env)
+			g.Canonical = true
+			type qparam struct {
+				key  string
+				ty   *codecgen.Ty
+				wrap func(*codecgen.J) *codecgen.J
+			}
+			var params []qparam
+			for _, p := range root.Props {
+				if len(p.Path) == 0 {
+					continue
+				}
+				name := p.JSON
+				switch {
+				case p.Ty.Class == "scalar" || p.Ty.Class == "enum":
+					params = append(params, qparam{name, p.Ty, func(v *codecgen.J) *codecgen.J { return codecgen.Obj().Add(name, v) }})
+				case p.Ty.Class == "array" && (p.Ty.Item.Class == "scalar" || p.Ty.Item.Class == "enum"):
+					params = append(params, qparam{name, p.Ty.Item, func(v *codecgen.J) *codecgen.J { return codecgen.Obj().Add(name, codecgen.Arr(v)) }})
+				case p.Ty.Class == "object":
+					if sub := t.Env.Lookup(p.Ty.Ref); sub != nil {
+						for _, c := range sub.Props {
+							if len(c.Path) > 0 && c.Ty.Class == "scalar" {
+								child := c.JSON
+								params = append(params, qparam{name + "." + child, c.Ty, func(v *codecgen.J) *codecgen.J {
+									return codecgen.Obj().Add(name, codecgen.Obj().Add(child, v))
+								}})
+								break
+							}
+						}
+					}
+				}
+			}
+			for _, pr := range params {
+				if tripped() {
+					break
+				}
+				for rep := cfg.Scale(2, 7); rep > 0; rep-- {
+					text := queryText(g.Value(pr.ty, 1))
+					sp := spaced[k%len(spaced)](text)
+					k++
+					q := url.Values{pr.key: {sp}}
+					doc := []byte(pr.wrap(codecgen.Str(sp)).Print(nil))
+					oj, ran := dec(t, doc, "query-space")
+					if !ran {
+						continue
+					}
+					oq, ran := decQ(t, q, "query-space")
+					if !ran {
+						continue
+					}
+					distinct.Add(t.Name + "q:" + q.Encode())
+					res.Count("query-space")
+					res.Count("query-space-outcome:" + oq.Kind)
+					input := map[string]any{"target": t.Env.Root, "query": q.Encode(), "json": short(doc)}
+					label := tyLabel(pr.ty)
+					switch {
+					case oq.Kind == "panic":
+						res.Fail(vh.Failure{Case: em.caseNo, Stream: "query-space", Sig: "C03 QueryToProto panics in " + oq.Site, Clause: "decoding succeeds or is rejected with an error", Input: input, Got: oq.Panic})
+					case oj.Kind == "err" && oq.Kind == "ok":
+						res.Fail(vh.Failure{Case: em.caseNo, Stream: "query-space", Sig: "C03 query value with surrounding white space accepted although the same text is rejected as a JSON string: " + label, Clause: "a member that cannot be represented in its target field is rejected", Input: input, Got: "decoded to " + short([]byte(oq.term())), Want: "error"})
+					case oj.Kind == "ok" && oq.Kind == "err":
+						res.Fail(vh.Failure{Case: em.caseNo, Stream: "query-space", Sig: "C03 query parameter rejected: white space is part of the value of " + label, Clause: "scalar values supplied as URL query parameters produce the same message as the canonical spelling", Input: input, Got: oq.Err})
+					case oj.Kind == "ok" && oq.Kind == "ok" && oq.term() != oj.term():
+						res.Fail(vh.Failure{Case: em.caseNo, Stream: "query-space", Sig: "C03 query parameters decode to a different message than the JSON document: white space around " + label, Clause: "stored with exactly the value it denotes", Input: input, Got: firstDiff(oq.term(), oj.term())})
+					}
+					em.add(queryCase(t, q, oq), "query-space", input, map[string]any{"kind": oq.Kind, "err": oq.Err})
+					em.caseNo++
+				}
+			}
+		}
 	}
 
 	// ---- stream 6: boundary literals per scalar kind, one member per document
